@@ -25,6 +25,10 @@
 (*                      function - opaque here) and re-ranked;             *)
 (*                      _extract_population: population = best n of them,  *)
 (*                      threshold = its largest new distance               *)
+(*     ADContinue       a further sample(n, rounds, quantile) call on the  *)
+(*                      same sampler (continued sampling): the populations, *)
+(*                      their thresholds and the node's distance functions  *)
+(*                      are kept, Rounds more populations are requested     *)
 (*   A row is the sequence of its distances under the functions in force   *)
 (*   (1-based: column k = distance function k-1; column 1 = plain          *)
 (*   Euclidean, whose threshold is inf).                                   *)
@@ -49,6 +53,7 @@
 (*   "newest_only"    AD acceptance tests only the newest threshold        *)
 (*   "accepted_only"  AD adaptation data = the accepted rows only          *)
 (*   "no_rerank"      AD population = first n in the OLD order             *)
+(*   "reset_functions" AD a continuing call re-initialises the distance node *)
 (*   "stale_quantile" AT stop test reads the quantile of the round that    *)
 (*                    just finished instead of the new estimate            *)
 (***************************************************************************)
@@ -59,7 +64,8 @@ CONSTANTS Sampler,      \* "AD" | "AT"
           PopN,         \* n: particles per population
           CandN,        \* AD: N = ceil(n / quantile) accepted rows per round (>= PopN)
           BS,           \* batch size
-          Rounds,       \* AD: rounds;  AT: max_iter
+          Rounds,       \* AD: rounds of one sample() call;  AT: max_iter
+          MaxCalls,     \* AD: number of sample() calls on the one sampler
           Vals,         \* AD: distance values (small naturals)
           MaxBatches,   \* bound of the model: batches per round
           Qs,           \* AT: values an estimated quantile may take (per cent)
@@ -74,8 +80,10 @@ VARIABLES round,        \* state['round'] (0-based)
           buf,          \* AD: the accepted rows of the running round, sorted by the newest column
           nb,           \* batches consumed in the running round
           qs,           \* AT: self._quantiles (the entries that are not None)
-          nsim          \* state['n_sim']
-vars == <<round, phase, fns, pops, buf, nb, qs, nsim>>
+          nsim,         \* state['n_sim']
+          target,       \* objective['round'] + 1: the number of populations when the running call returns
+          calls         \* sample() calls made
+vars == <<round, phase, fns, pops, buf, nb, qs, nsim, target, calls>>
 
 \* ---------------------------------------------------------------- sorting (np.argsort on the newest column)
 Last(s) == s[Len(s)]
@@ -98,13 +106,13 @@ TestedCols == IF Variant = "newest_only" THEN {round + 1} ELSE 1..(round + 1)
 Accepted(row) == \A k \in TestedCols : row[k] <= Nest[k]
 
 ADInit == /\ round = 0 /\ phase = "round" /\ pops = <<>> /\ buf = <<>> /\ nb = 0 /\ qs = <<>> /\ nsim = 0
-          /\ fns = <<[rnd |-> -1, ndata |-> 0]>>
+          /\ fns = <<[rnd |-> -1, ndata |-> 0]>> /\ target = Rounds /\ calls = 1
 
 ADMerge(rows) ==
   /\ Sampler = "AD" /\ phase = "round" /\ Len(buf) < CandN /\ nb < MaxBatches
   /\ buf' = InsertAll(buf, SelectSeq(rows, Accepted), 1)
   /\ nb' = nb + 1 /\ nsim' = nsim + BS
-  /\ UNCHANGED <<round, phase, fns, pops, qs>>
+  /\ UNCHANGED <<round, phase, fns, pops, qs, target, calls>>
 
 ADEndRound(newd) ==
   /\ Sampler = "AD" /\ phase = "round" /\ Len(buf) >= CandN
@@ -118,10 +126,18 @@ ADEndRound(newd) ==
                     nb |-> nb, nsim |-> nb * BS, nacc |-> Len(buf), src |-> Len(pops)]
      IN /\ pops' = Append(pops, pop)
         /\ fns' = Append(fns, [rnd |-> round, ndata |-> IF Variant = "accepted_only" THEN Len(buf) ELSE nb * BS])
-        /\ IF round + 1 < Rounds
+        /\ IF round + 1 < target
            THEN round' = round + 1 /\ buf' = <<>> /\ nb' = 0 /\ phase' = "round"
            ELSE phase' = "done" /\ UNCHANGED <<round, buf, nb>>
-  /\ UNCHANGED <<qs, nsim>>
+  /\ UNCHANGED <<qs, nsim, target, calls>>
+
+\* SMC.set_objective on a sampler that already holds populations: state['round'] = len(self._populations)
+ADContinue ==
+  /\ Sampler = "AD" /\ phase = "done" /\ calls < MaxCalls
+  /\ calls' = calls + 1 /\ target' = Len(pops) + Rounds /\ round' = Len(pops)
+  /\ phase' = "round" /\ buf' = <<>> /\ nb' = 0
+  /\ fns' = (IF Variant = "reset_functions" THEN <<[rnd |-> -1, ndata |-> 0]>> ELSE fns)
+  /\ UNCHANGED <<pops, qs, nsim>>
 
 RowsOf(w) == [1..w -> Vals]
 \* one batch of BS rows, each with an arbitrary distance under every function in force
@@ -129,6 +145,7 @@ ADBatch == \E rows \in [1..BS -> RowsOf(round + 1)] : ADMerge(rows)
 
 \* ---------------------------------------------------------------- AdaptiveThresholdSMC
 ATInit == /\ round = 0 /\ phase = "round" /\ pops = <<>> /\ buf = <<>> /\ nb = 0 /\ nsim = 0 /\ fns = <<>>
+          /\ target = Rounds /\ calls = 1
           /\ qs \in {<<q>> : q \in Qs}                                     \* _quantiles[0] = initial_quantile
 
 \* threshold in force in the running round: round 0 = the initial quantile of everything simulated;
@@ -146,13 +163,14 @@ ATEndRound(k, q) ==
              THEN /\ pops' = Append(pops, ATPop(k)) /\ round' = round + 1 /\ phase' = "round"
              ELSE /\ pops' = Append(pops, ATPop(k)) /\ phase' = "done" /\ UNCHANGED round     \* extract_result
      ELSE /\ pops' = Append(pops, ATPop(k)) /\ phase' = "done" /\ UNCHANGED <<round, qs>>
-  /\ UNCHANGED <<fns, buf, nb>>
+  /\ UNCHANGED <<fns, buf, nb, target, calls>>
 
 
 \* ----------------------------------------------------------------
 Init == IF Sampler = "AD" THEN ADInit ELSE ATInit
 Next == \/ ADBatch
         \/ (\E newd \in [1..CandN -> Vals] : ADEndRound(newd))
+        \/ ADContinue
         \/ (\E k \in 1..MaxBatches, q \in Qs : ATEndRound(k, q))
 Spec == Init /\ [][Next]_vars
 
@@ -164,7 +182,7 @@ NSimAdds == nsim = SumNsim(Len(pops)) + (IF Sampler = "AD" /\ phase = "round" TH
 PopNSim == \A i \in 1..Len(pops) : pops[i].nsim = BS * pops[i].nb
 \* proposals / importance weights of population i come from the population right before it
 UsesLatestPopulation == \A i \in 1..Len(pops) : pops[i].src = i - 1
-NeverMoreThanRounds == Len(pops) <= Rounds /\ round < Rounds
+NeverMoreThanRounds == Len(pops) <= target /\ round < target /\ target = calls * Rounds
 
 \* ================================================================ guarantees, AdaptiveDistanceSMC
 \* the nested list in force while population i (1-based) was sampled
@@ -189,7 +207,9 @@ ADNestMatchesFunctions == phase = "round" => Len(Nest) = Len(fns) /\ Len(Nest) =
 ADAdaptationData == \A i \in 1..Len(pops) : fns[i + 1].ndata = pops[i].nsim
 \* a round consumes batches until N rows are accepted: at least N in the end, fewer than N before the last batch
 ADRoundEndsAtN == \A i \in 1..Len(pops) : pops[i].nacc >= CandN /\ pops[i].nacc < CandN + BS /\ pops[i].nb >= 1
-ADAllRounds == phase = "done" => Len(pops) = Rounds
+\* every call returns with Rounds more populations; earlier populations, thresholds and functions are kept (history variables
+\* pops / fns only grow - ADNestedAcceptance and ADOneFunctionPerRound range over the populations of all calls)
+ADAllRounds == phase = "done" => Len(pops) = target
 
 \* ================================================================ guarantees, AdaptiveThresholdSMC
 \* the run ends with fewer than max_iter populations only if the last estimated quantile reached q_threshold
